@@ -1,9 +1,9 @@
 #!/bin/bash
-# tools/sweep.sh <tier> <seed>...   : run every check for each seed; print one line per run plus any alarm lines
+# tools/sweep.sh <tier> <seed>...   : run every check (or those named in $ONLY, e.g. ONLY="03 05") for each seed; one line per run plus any alarm lines
 cd "$(dirname "$0")/.." || exit 2
 tier=$1; shift
 for seed in "$@"; do
-  for i in 01 02 03 04 05 06 07 08 09 10 11 12 13 14 15 16 17 18 19 20; do
+  for i in ${ONLY:-01 02 03 04 05 06 07 08 09 10 11 12 13 14 15 16 17 18 19 20}; do
     out=$(VERIF_SEED=$seed ./check C$i --tier $tier 2>&1); rc=$?
     echo "rc=$rc $(echo "$out" | grep "tier=$tier")"
     if [ $rc != 0 ]; then echo "$out" | grep -E "VIOLATION|INCONCLUSIVE|mechanism|detail" | cut -c1-700 | head -12; fi
